@@ -4,6 +4,14 @@ import json, os, subprocess
 V = os.path.dirname(os.path.dirname(os.path.abspath(__file__)))
 
 CHECKS = {
+ "C19": dict(level="exploration", design="§3 C19",
+   text="CLI-vs-library monitor driving the real `asca` binary (built from the working tree) in scratch directories: 480 (quick) / 12 000 (thorough) generated projects serialised per doc-cli.md with cosmetic variation (indentation, blank lines, CRLF, comments); the file written by `asca run -o` and the printed before => after pairs must equal asca::run on the model, `run -j` must agree, `conv asca` must produce the model as JSON, and on round-trip-safe projects `conv json` (explicit and default paths) followed by `conv asca` must reproduce it. Every invocation has stdin closed, a step budget (ASCA_VERIF_BUDGET) and a 20 s watchdog.",
+   note="the generator owns the model, so no second parser is needed; round-trip-safe = no blank/comment-only word lines, descriptions start with a non-empty line; a watchdog firing is inconclusive",
+   technique="model-driven differential between the binary's files/stdout and the library, plus conversion round trips"),
+ "C20": dict(level="exploration", design="§3 C20",
+   text="`seq` monitor driving the real binary: 400 (quick) / 8000 (thorough) generated project trees (1-4 tags in chains and forks, rule files with `!` and `~` filters incl. several names in non-file order and mixed case, word files, extra words on piped tags, deromaniser alias on a root); out/<tag>/*.wsca written by `asca seq -o -y` and by `-t <tag>` must equal my fold of asca::run over the configured entries; a cyclic or dangling variant of every tree (self-loop, 2- and 3-cycle, cycle outside the requested tag) must exit non-zero within the step budget and write nothing; `conv tag --recurse` exports are run through the library and compared with the tag's file.",
+   note="the model of a tag is read off doc-cli.md / seq.rs: parent words, then word files separated by one empty line; each entry applied to the previous stage's rendered words with the tag's own alias; a stage that errors yields no file",
+   technique="model-driven differential on the binary's output tree + bounded rejection of cyclic configurations"),
  "C12": dict(level="exploration", design="§3 C12",
    text="Shorthand-vs-expansion monitor: 40 k (quick) / 2 M (thorough) descriptions, each printed as the shorthand and as its mechanical expansion - condensed comma rules vs the sequence of sub-rules, `_,X` vs `X_ , _X` mirrored, group letters vs the manual's matrices, optionals `(X,M:N)` (with pre- and multi-element post-context, in context or exception) vs the environment set of their repetitions, `A B > &` vs `A=1 B=2 > 2 1` - applied by the real interpreter to small words over {a k i t} in random syllabifications and to generated words; structural results (hook) must be equal or both fail (460 k applications quick).",
    note="known finding KF-C12-1 (metathesis spellings differ when a long segment is swapped); the group table is copied from doc.md, not from the parser",
